@@ -298,7 +298,33 @@ func (ex *Exec) havocResults(resTypes []types.Type, what string) []Val {
 }
 
 // dispatch performs a call to a known function object.
+// callsiteChecks emits the callsite obligations of the function under verification for this call.
+func (ex *Exec) callsiteChecks(e *ast.CallExpr, args []Val) {
+	if e == nil || ex.fc == nil || len(ex.fc.Callsites) == 0 || len(ex.code) > 1 {
+		return
+	}
+	txt := noSpace(exprString(e))
+	for _, cc := range ex.fc.Callsites {
+		if !strings.HasPrefix(txt, noSpace(cc.CallText)) {
+			continue
+		}
+		ex.callsitesUsed[cc] = true
+		sc := ex.specHere(e.Pos())
+		sc.where = cc.Req.Line
+		for i, a := range args {
+			sc.vars[fmt.Sprintf("arg%d", i)] = a
+		}
+		kind, lab := "F", cc.Req.Label
+		if j := strings.Index(lab, ":"); j == 1 {
+			kind, lab = lab[:1], lab[2:]
+		}
+		g := ex.specBool(sc, cc.Req)
+		ex.assert(kind, "callsite["+lab+"]", g)
+	}
+}
+
 func (ex *Exec) dispatch(e *ast.CallExpr, callee *types.Func, recv *Val, args []Val, resTypes []types.Type) []Val {
+	ex.callsiteChecks(e, args)
 	full := callee.Origin().FullName()
 	sig := callee.Type().(*types.Signature)
 	// dynamic dispatch on interface methods when the dynamic type is known
